@@ -18,6 +18,9 @@ def register(CHECKS, H):
         # ... and through the documented entry point (6 weights = every weak order of <= 6 edges), 2 numberings
         q.append({"unit": u, "args": ["--part", "graphs", "--n", "4", "--W", "1,2,3,4,5,6", "--selfcheck", "100"], "shards": 2})
         q.append({"unit": u, "args": ["--part", "graphs", "--n", "5", "--W", "1,2", "--selfcheck", "500"]})
+        # complete graphs (the Rips / distance-matrix situation)
+        q.append({"unit": u, "args": ["--part", "graphs", "--n", "5", "--W", "1,2,3", "--complete", "1", "--selfcheck", "500"]})
+        q.append({"unit": u, "args": ["--part", "graphs", "--n", "6", "--W", "1,2", "--complete", "1", "--variants", "0", "--selfcheck", "500"]})
         q.append({"unit": u, "args": ["--part", "ties", "--n", "5", "--W", "1,2", "--cap", "120", "--variants", "0", "--selfcheck", "5000"], "shards": 4})
         q.append({"unit": u, "args": ["--part", "union", "--n", "5", "--W", "1,2", "--block", "150", "--selfcheck", "50"]})
     for u in tbb:
@@ -26,15 +29,22 @@ def register(CHECKS, H):
         q.append({"unit": u, "args": ["--part", "union", "--n", "5", "--W", "1,2", "--block", "150", "--selfcheck", "50", "--threads", "4"], "cores": 4})
 
     for u in plain:
-        t.append({"unit": u, "args": ["--part", "graphs", "--n", "5", "--W", "1,2,3,4", "--variants", "0", "--selfcheck", "20000"], "shards": 8, "timeout": 3000})
         t.append({"unit": u, "args": ["--part", "graphs", "--n", "5", "--W", "1,2,3", "--variants", "1", "--selfcheck", "5000"], "shards": 2, "timeout": 3000})
-        t.append({"unit": u, "args": ["--part", "graphs", "--n", "6", "--W", "1,2", "--variants", "0", "--selfcheck", "20000"], "shards": 12, "timeout": 3000})
-        t.append({"unit": u, "args": ["--part", "ties", "--n", "5", "--W", "1,2", "--cap", "720", "--variants", "0", "--selfcheck", "20000"], "shards": 8, "timeout": 3000})
-        t.append({"unit": u, "args": ["--part", "ties", "--n", "5", "--W", "1,2,3", "--cap", "24", "--variants", "0", "--selfcheck", "20000"], "shards": 4, "timeout": 3000})
+        t.append({"unit": u, "args": ["--part", "graphs", "--n", "6", "--W", "1", "--selfcheck", "500"], "timeout": 3000})
+        t.append({"unit": u, "args": ["--part", "graphs", "--n", "6", "--W", "1,2", "--complete", "1", "--selfcheck", "500"], "timeout": 3000})
+        t.append({"unit": u, "args": ["--part", "ties", "--n", "5", "--W", "1,2", "--cap", "144", "--variants", "0", "--selfcheck", "20000"], "shards": 2, "timeout": 3000})
         t.append({"unit": u, "args": ["--part", "weak", "--n", "4", "--selfcheck", "1"], "timeout": 3000})
         t.append({"unit": u, "args": ["--part", "union", "--n", "5", "--W", "1,2,3", "--block", "150", "--selfcheck", "200"], "shards": 2, "timeout": 3000})
+    # the large scopes cost 40-90 us per case under the sanitizers; each goes to one of the two neighbour-table builds:
+    # default build: every graph on 5 vertices with 4 weights and on 6 vertices with 2 weights (sparse graphs: the
+    # "neighbour not found" paths); dense-array build: every complete graph on 6 vertices with 3 weights (table reads
+    # in both directions after delays), every graph on 5 vertices with 3 weights
+    t.append({"unit": "c12_sparse", "args": ["--part", "graphs", "--n", "5", "--W", "1,2,3,4", "--variants", "0", "--selfcheck", "20000"], "shards": 8, "timeout": 3000})
+    t.append({"unit": "c12_sparse", "args": ["--part", "graphs", "--n", "6", "--W", "1,2", "--variants", "0", "--selfcheck", "20000"], "shards": 12, "timeout": 3000})
+    t.append({"unit": "c12_dense", "args": ["--part", "graphs", "--n", "5", "--W", "1,2,3", "--variants", "0", "--selfcheck", "5000"], "shards": 2, "timeout": 3000})
+    t.append({"unit": "c12_dense", "args": ["--part", "graphs", "--n", "6", "--W", "1,2,3", "--complete", "1", "--variants", "0", "--selfcheck", "20000"], "shards": 14, "timeout": 3000})
     for u in tbb:
-        t.append({"unit": u, "args": ["--part", "graphs", "--n", "5", "--W", "1,2,3", "--selfcheck", "5000"], "shards": 2, "timeout": 3000})
+        t.append({"unit": u, "args": ["--part", "graphs", "--n", "5", "--W", "1,2", "--selfcheck", "500"], "timeout": 3000})
         t.append({"unit": u, "args": ["--part", "weak", "--n", "4", "--selfcheck", "20"], "timeout": 3000})
         t.append({"unit": u, "args": ["--part", "union", "--n", "5", "--W", "1,2,3", "--block", "150", "--selfcheck", "200", "--threads", "4"], "cores": 4, "timeout": 3000})
 
@@ -46,10 +56,13 @@ def register(CHECKS, H):
                       "tied edges through Flag_complex_edge_collapser::process_edges, compared with brute-force flag complexes and "
                       "persistence by boundary-matrix column reduction over Z_2 and Z_3"),
         "level_text": ("every labelled weighted graph on 4 vertices with weights {1..6} (= every weak order of the edges), on 5 vertices "
-                       "with weights {1,2} (thorough: {1,2,3,4}) and, thorough only, on 6 vertices with weights {1,2}, through the "
-                       "documented entry point in 2 numberings (labels 0..n-1 <int,double>; labels with gaps, reversed orientation and "
-                       "list order, negative/zero weights, <short,float>); every order of tied edges through process_edges for every "
-                       "weak order on 4 vertices and for the 5-vertex graphs with at most 120 (thorough: 720) tie orders; builds "
+                       "with weights {1,2}, every complete graph on 5 vertices with weights {1,2,3} and on 6 vertices with weights {1,2}; "
+                       "thorough only: every graph on 5 vertices with weights {1,2,3,4} and on 6 vertices with weights {1,2} (default "
+                       "build), every graph on 5 vertices with weights {1,2,3} and every complete graph on 6 vertices with weights "
+                       "{1,2,3} (dense-array build); all through the documented entry point, the smaller scopes in 2 numberings "
+                       "(labels 0..n-1 <int,double>; labels with gaps, reversed orientation and list order, negative/zero weights, "
+                       "<short,float>); every order of tied edges through process_edges for every weak order on 4 vertices and for "
+                       "the 5-vertex graphs with weights {1,2} and at most 120 (thorough: 144) tie orders; builds "
                        "{sparse, GUDHI_COLLAPSE_USE_DENSE_ARRAY} x {std::sort, GUDHI_USE_TBB}. For each case: output edges are distinct "
                        "input edges with values >= input values, and the Z_2 and Z_3 persistence diagrams (all dimensions) of the flag "
                        "filtrations of input and output are equal. Small scope is a bound: graphs with more than 6 vertices are only "
@@ -64,11 +77,13 @@ def register(CHECKS, H):
                  "ev.transitions = calls whose whole output was compared; ev.evaluations = edge-clause checks + diagram comparisons; "
                  "non-trivial = the collapse removed or delayed at least one edge (only then are the two filtrations different objects)"),
         "bounds": {
-            "quick": ("sparse+dense: weak orders x tie orders on 4 vertices; graphs n=4 W={1..6}, n=5 W={1,2} (2 numberings); tie orders of "
-                      "n=5 W={1,2} graphs with <= 120 tie orders; unions of 150 graphs. TBB builds: weak orders n=4, graphs n=5 W={1,2}, unions"),
-            "thorough": ("sparse+dense: graphs n=5 W={1,2,3,4}, n=6 W={1,2} (numbering 0), n=5 W={1,2,3} (numbering 1); tie orders of n=5 "
-                         "W={1,2} graphs with <= 720 orders and W={1,2,3} graphs with <= 24 orders; weak orders n=4; unions over n=5 "
-                         "W={1,2,3}. TBB builds: graphs n=5 W={1,2,3} (2 numberings), weak orders n=4, unions"),
+            "quick": ("sparse+dense: weak orders x tie orders on 4 vertices; graphs n=4 W={1..6}, n=5 W={1,2} (2 numberings); complete "
+                      "graphs n=5 W={1,2,3} (2 numberings), n=6 W={1,2}; tie orders of n=5 W={1,2} graphs with <= 120 tie orders; unions "
+                      "of 150 graphs. TBB builds: weak orders n=4, graphs n=5 W={1,2}, unions"),
+            "thorough": ("sparse+dense: graphs n=5 W={1,2,3} (numbering 1), n=6 W={1} and complete n=6 W={1,2} (2 numberings); tie orders "
+                         "of n=5 W={1,2} graphs with <= 144 orders; weak orders n=4; unions over n=5 W={1,2,3}. sparse only: every graph "
+                         "n=5 W={1,2,3,4} and n=6 W={1,2}. dense only: every graph n=5 W={1,2,3}, every complete graph n=6 W={1,2,3}. "
+                         "TBB builds: graphs n=5 W={1,2} (2 numberings), weak orders n=4, unions over n=5 W={1,2,3}"),
         },
         "assumptions": [
             "input is a simple graph: no loops, each vertex pair at most once, non-negative vertex labels, finite weights (small integers, exact in float)",
